@@ -245,6 +245,9 @@ type settleOpts struct {
 	pre, post   func(link string, msg []byte) // called around every delivery
 	history     map[string][][]byte           // delivered messages per link (for replay), kept by the caller across phases
 	maxIter     int
+	held        map[string]bool       // links held back; owned by the caller so that a hold can span scenario events
+	auto        func(msg []byte) bool // messages that are delivered right away in canonical order (no choice point)
+	keepHeld    bool                  // at quiescence offer to keep the held links into the next event
 }
 
 // deliverable returns, per eligible link, the canonical labels of the messages that may be delivered next.
@@ -311,12 +314,16 @@ func (m *mesh) stateKey(held map[string]bool, sinceTick map[string][]string, ctx
 // explorer chose to fire the next scenario event early, "pruned" when the state was already covered,
 // and "" when the mesh is quiet.
 func (m *mesh) exploreSettle(r *xrun, o settleOpts) string {
-	held := map[string]bool{}
+	held := o.held
+	if held == nil {
+		held = map[string]bool{}
+	}
 	sinceTick := map[string][]string{}
 	maxIter := o.maxIter
 	if maxIter == 0 {
 		maxIter = 600
 	}
+	m.step++ // whatever the preceding event emitted forms its own batch
 	deliver := func(k string, data []byte, lbl string) {
 		dst := strings.Split(k, ">")[1]
 		sinceTick[dst] = append(sinceTick[dst], lbl)
@@ -354,6 +361,31 @@ func (m *mesh) exploreSettle(r *xrun, o settleOpts) string {
 		}
 	}
 	for iter := 0; iter < maxIter; iter++ {
+		if o.auto != nil {
+			// deliver everything the scenario does not explore (canonical order), to quiescence
+			for n := 0; n < 2000; n++ {
+				moved := false
+				for _, k := range m.sortedLinks() {
+					s := m.sess[k]
+					s.mu.Lock()
+					idx := -1
+					for i, q := range s.outbox {
+						if o.auto(q.data) {
+							idx = i
+							break
+						}
+					}
+					s.mu.Unlock()
+					if idx >= 0 {
+						m.deliverAt(k, idx)
+						moved = true
+					}
+				}
+				if !moved {
+					break
+				}
+			}
+		}
 		links, labels, index := m.deliverable(held, o.bag)
 		if len(links) == 0 {
 			anyHeld := false
@@ -371,7 +403,9 @@ func (m *mesh) exploreSettle(r *xrun, o settleOpts) string {
 				if c == "next-event" {
 					return "next"
 				}
-				held = map[string]bool{}
+				for k := range held {
+					delete(held, k)
+				}
 				continue
 			}
 			before := m.inflight()
